@@ -373,7 +373,9 @@ class Instrs(CallsMixin):
         base = st.ptr_loc(x)
         ft = types.elem(ins['type'])
         loc = st.field_loc(base, ins['fname'], ft)
-        self.setreg(st, ins, Val(ins['type'], None, loc=loc))
+        hd = V.interior_handle(loc)
+        st.assume(hd < 0)   # handles of interior pointers are negative: never nil, never an object reference
+        self.setreg(st, ins, Val(ins['type'], {(): hd}, loc=loc))
 
     def op_Index(self, st, fr, b, i, ins):
         types = self.types
@@ -412,7 +414,9 @@ class Instrs(CallsMixin):
         else:
             raise OutOfSubset('IndexAddr on ' + k)
         loc = Loc(loc.fam, loc.tk, loc.ref, loc.steps, et)
-        self.setreg(st, ins, Val(ins['type'], None, loc=loc))
+        hd = V.interior_handle(loc)
+        st.assume(hd < 0)
+        self.setreg(st, ins, Val(ins['type'], {(): hd}, loc=loc))
 
     def op_Store(self, st, fr, b, i, ins):
         a = self.operand(st, fr, ins['addr'])
